@@ -53,7 +53,10 @@ func universe(thorough bool) []*item {
 		specs = append(specs, &vals.Spec{T: vals.TLong, I: v}, &vals.Spec{T: vals.TDec, I: v},
 			&vals.Spec{T: vals.TLSum, I: v, Count: 3, MinI: 1, MaxI: 6}, &vals.Spec{T: vals.TAI64, I64s: []int64{v}})
 	}
-	r := []*vals.Spec{{T: vals.TNull}, {T: vals.TDec, I: 1}, {T: vals.TDec, I: 2}, {T: vals.TText, S: "a"}, {T: vals.TBool, B: true}}
+	// container elements: ordinary values and the values the typed accessors answer for "not there /
+	// not of that type" (the empty text, zero) - an element that IS the default must not be taken for
+	// an absent or differently typed one
+	r := []*vals.Spec{{T: vals.TNull}, {T: vals.TDec, I: 1}, {T: vals.TDec, I: 2}, {T: vals.TText, S: "a"}, {T: vals.TBool, B: true}, {T: vals.TText, S: ""}, {T: vals.TDec, I: 0}}
 	if thorough {
 		r = append(r, &vals.Spec{T: vals.TBlob, Nil: true}, &vals.Spec{T: vals.TBlob, Bytes: []byte{}}, &vals.Spec{T: vals.TFlt, F32: 1})
 	}
